@@ -13,6 +13,8 @@ open Proto Minimizer
       wrap  <maxReps> <bounds lo:hi;…> <attempts conv:rep:f:x1,x2;…> <reeval table f:x1,x2;…>
               -> ok <reps> <reevaluated> <f> <x> | err <msg>
       cobyla <bounds lo:hi;…> <x>    -> values of the COBYLA inequality constraints at x (ERR = IndexError)
+      status <lbfgs|scipy|iminuit|crs|nr> <int|0/1> <task hex|->   -> <has_converged> <is_repeatable>
+      wrapst / wrape / neg / bmode: see the comments at the ops
       max   (same arguments as wrap; the attempts carry the negated function, the table the llh values)
               -> ok <reps> <logLambdaMax> <x> | err <msg>
     The objective of the model is a lookup in the table of the calls the real objective answered
@@ -83,6 +85,25 @@ def attemptOf (as : List (Attempt Float)) (k : Nat) : Attempt Float :=
   -- marker outcome; it shows up as a wrong result
   as.getD k { x := [], f := nanF, converged := true, repeatable := false }
 
+def hexVal (c : Char) : Nat :=
+  if c.isDigit then c.toNat - '0'.toNat else if 'a' ≤ c && c ≤ 'f' then c.toNat - 'a'.toNat + 10 else 0
+
+/-- text passed as lower-case hex of its bytes (ASCII), `-` = empty -/
+def unhex (s : String) : String :=
+  if s == "-" then "" else
+  let rec go : List Char → List Char
+    | a :: b :: rest => Char.ofNat (hexVal a * 16 + hexVal b) :: go rest
+    | _ => []
+  String.ofList (go s.toList)
+
+def statusOf (kind v task : String) : ImplStatus :=
+  match kind with
+  | "lbfgs" => .lbfgs (pI v) (unhex task)
+  | "scipy" => .scipy (pB v)
+  | "iminuit" => .iminuit (pB v)
+  | "crs" => .crs (pI v)
+  | _ => .nr (pI v)
+
 def answer (line : String) : String :=
   match tokens line with
   | ["nr", tol, thr, fp0, ms, lo, hi, ns0, tab] =>
@@ -130,6 +151,39 @@ def answer (line : String) : String :=
         | _ => none
       let r := functorRun func FunctorState.empty pts
       String.intercalate ";" (r.1.map (fun o => s!"{fF o.1}:{fListD fF o.2}")) ++ s!" {r.2.ncalls}"
+  | ["status", kind, v, task] =>
+      let st := statusOf kind v task
+      s!"{fB (implConverged st)} {fB (implRepeatable st)}"
+  | ["wrapst", mr, bs, as, tab] =>
+      -- attempts kind:value:taskhex:f:x1,x2;…  (has_converged / is_repeatable come from the model's tables)
+      let att : List (Attempt Float) := (records as).filterMap fun r => match r with
+        | [kind, v, task, f, xs] => some (attemptOfStatus (pList pF xs) (pF f) (statusOf kind v task))
+        | _ => none
+      match wrapper (attemptOf att) (pN mr) (parseBounds bs) (funcOf (parseReeval tab)) with
+      | .error e => s!"err {e}"
+      | .ok o => s!"ok {o.reps} {fB o.reevaluated} {fF o.f} {fListD fF o.x}"
+  | ["wrape", mr, bs, as, tab] =>
+      -- attempts E | conv:rep:f:x ; table f:x | E:x   (E = the call raises)
+      let att : List (Except String (Attempt Float)) := (records as).map fun r => match r with
+        | [c, rp, f, xs] => .ok { x := pList pF xs, f := pF f, converged := pB c, repeatable := pB rp }
+        | _ => .error "raised"
+      let tab : List (List Float × Except String Float) := (records tab).filterMap fun r => match r with
+        | ["E", xs] => some (pList pF xs, .error "raised")
+        | [f, xs] => some (pList pF xs, .ok (pF f))
+        | _ => none
+      let func := fun (x : List Float) => match tab.find? (fun e => sameList e.1 x) with
+        | some e => e.2
+        | none => .ok nanF
+      match wrapperE (fun k => att.getD k (.error "beyond-script")) (pN mr) (parseBounds bs) func with
+      | .error e => s!"err {e}"
+      | .ok o => s!"ok {o.reps} {fB o.reevaluated} {fF o.f} {fListD fF o.x}"
+  | ["neg", f, gs] =>
+      let r := negFunc (fun (_ : List Float) => (pF f, pList pF gs)) []
+      s!"{fF r.1} {fListD fF r.2}"
+  | ["bmode", m] => match scipyBoundsMode (unhex m) with
+      | .native => "native"
+      | .constraints => "constraints"
+      | .dropped => "dropped"
   | _ => "bad-op"
 
 def main : IO Unit := do loop (← IO.getStdin) answer
